@@ -1,5 +1,6 @@
 """Shared steps of the bgzf.Writer checks (C01 writer half, C08, C09, C12)."""
 import json
+from lib import vrun
 
 ASSUME = ["payload bytes are a keyed function of the stream position; byte equality is projected by the Go harness to (from, length) and the "
           "position logic is decided by TLC",
@@ -77,6 +78,16 @@ def model(ctx):
         ctx.mcheck("BgzfWriter", "WriterMC", "WriterMC_thorough.cfg", timeout=6000, heap="24g")
 
 
+_skip = {}
+
+
+def skip_sc(trace):
+    """scenario numbers of the hdrsize family in a trace"""
+    if trace not in _skip:
+        _skip[trace] = {e["sc"] for e in vrun.read_ndjson(trace) if e.get("ev") == "T" and str(e.get("sig", "")).startswith("writer/hdrsize")}
+    return _skip[trace]
+
+
 def drive_and_validate(ctx, modes, selftest_on=None):
     ctx.build()
     total = {}
@@ -87,7 +98,14 @@ def drive_and_validate(ctx, modes, selftest_on=None):
         ctx.evaluations += s["lines"]
         ctx.distinct += s["scenarios"]
         ctx.validate("BgzfWriter", "WriterTrace", "WriterTraceP.cfg", trace, is_p=True)
-        ctx.validate("BgzfWriter", "WriterTrace", "WriterTraceI.cfg", trace, is_p=False)
+        # conformance of the block plan (WriterPlan): the plan does not model a header so large that
+        # a full block no longer fits in a member (family "hdrsize", outside the property's domain)
+        itrace = trace + ".i"
+        with open(itrace, "w") as f:
+            for e in vrun.read_ndjson(trace):
+                if not str(e.get("sig", "")).startswith("writer/hdrsize") and e.get("sc") not in skip_sc(trace):
+                    f.write(json.dumps(e) + "\n")
+        ctx.validate("BgzfWriter", "WriterTrace", "WriterTraceI.cfg", itrace, is_p=False)
         if len(ctx.samples) < 3:
             ctx.add_samples(trace, n=1, maxlines=14)
         if ctx.tier == "thorough" and selftest_on == mode:
